@@ -38,8 +38,8 @@ pub struct Monitor {
     pub lenient: bool,
     pub tainted: bool,
     buys: BTreeMap<u64, u32>,
-    listing_payouts: BTreeMap<u64, u32>,
-    bucket_payouts: BTreeMap<u64, u32>,
+    /// record instances that exist according to the history: (is_listing, owner, id)
+    live: BTreeSet<(bool, String, u64)>,
     traces: BTreeMap<u64, TraceEntry>,
     pub charged: BTreeMap<String, u128>,
     pub reach: BTreeMap<&'static str, u64>,
@@ -71,12 +71,11 @@ impl Monitor {
         let mut eb = BTreeSet::new();
         eb.insert(0);
         Monitor {
-            ghost: Ghost { ever_listing: el, ever_bucket: eb, last_switch_s: initial.time_ns / 1_000_000_000 },
+            ghost: Ghost { ever_listing: el, ever_bucket: eb, last_switch_s: initial.time_ns / 1_000_000_000, last_switch_ns: initial.time_ns },
             lenient,
             tainted: false,
             buys: BTreeMap::new(),
-            listing_payouts: BTreeMap::new(),
-            bucket_payouts: BTreeMap::new(),
+            live: BTreeSet::new(),
             traces: BTreeMap::new(),
             charged: BTreeMap::new(),
             reach: BTreeMap::new(),
@@ -258,14 +257,13 @@ impl Monitor {
                 // a re-created id (a C09 matter) denotes a new object for the per-object monitors
                 if !self.ghost.ever_listing.insert(*id) {
                     self.buys.remove(id);
-                    self.listing_payouts.remove(id);
                     self.traces.remove(id);
                 }
+                self.live.insert((true, a.sender.clone(), *id));
             }
             Act::CreateBucket { id, .. } => {
-                if !self.ghost.ever_bucket.insert(*id) {
-                    self.bucket_payouts.remove(id);
-                }
+                self.ghost.ever_bucket.insert(*id);
+                self.live.insert((false, a.sender.clone(), *id));
             }
             Act::Buy { lid, bid } => {
                 let n = self.buys.entry(*lid).or_insert(0);
@@ -279,23 +277,32 @@ impl Monitor {
                         *self.charged.entry(fee.0.clone()).or_insert(0) += fee.1;
                     }
                 }
+                // entitlements move with the records
+                if let Some(l) = pre.listing_by_id(*lid) {
+                    let seller = l.key_owner.clone();
+                    if self.live.remove(&(true, seller.clone(), *lid)) {
+                        self.live.insert((true, a.sender.clone(), *lid));
+                    }
+                    if self.live.remove(&(false, a.sender.clone(), *bid)) {
+                        self.live.insert((false, seller, *bid));
+                    }
+                }
             }
             Act::DeleteListing { id } | Act::Withdraw { id } => {
-                let n = self.listing_payouts.entry(*id).or_insert(0);
-                *n += 1;
-                if *n > 1 {
-                    f.push(Finding::new("C03.paid_twice", kind, format!("listing {id} paid out {} times", *n)));
+                // each record pays out once: a payout for a key whose record was never created, or
+                // was already paid, delivers somebody's assets a second time
+                if !self.live.remove(&(true, a.sender.clone(), *id)) && !self.tainted {
+                    f.push(Finding::new("C03.paid_twice", kind, format!("listing {id} paid out to {} although no such unpaid record exists in the history", a.sender)));
                 }
             }
             Act::RemoveBucket { id } => {
-                let n = self.bucket_payouts.entry(*id).or_insert(0);
-                *n += 1;
-                if *n > 1 {
-                    f.push(Finding::new("C03.paid_twice", kind, format!("bucket {id} paid out {} times", *n)));
+                if !self.live.remove(&(false, a.sender.clone(), *id)) && !self.tainted {
+                    f.push(Finding::new("C03.paid_twice", kind, format!("bucket {id} paid out to {} although no such unpaid record exists in the history", a.sender)));
                 }
             }
             Act::FeeCycle => {
                 self.ghost.last_switch_s = pre.time_ns / 1_000_000_000;
+                self.ghost.last_switch_ns = pre.time_ns;
                 self.last_fee_switch_step = Some(self.step_no);
             }
             Act::Register { .. } | Act::Update { .. } | Act::Remove { .. } => {
@@ -472,6 +479,9 @@ impl Monitor {
                 }
                 if e == spec::WEEK {
                     self.hit("cycle_at_week");
+                    if pre.time_ns.saturating_sub(self.ghost.last_switch_ns) < spec::WEEK * 1_000_000_000 {
+                        self.hit("cycle_in_week_second_but_less_than_a_week");
+                    }
                 }
                 if e == spec::WEEK + 1 {
                     self.hit("cycle_week_plus_1s");
@@ -597,6 +607,11 @@ impl Monitor {
             }
         }
         for a in &assets {
+            if let Fung::Cw20(t) = a {
+                if names.is_sloppy20(t) {
+                    continue;
+                }
+            }
             let held = post.bal(&names.market, a);
             let owed = promised.get(a).copied().unwrap_or(0);
             if held != owed {
@@ -1181,6 +1196,11 @@ fn compare_wallets(pre: &Obs, post: &Obs, eff: &Effect, a: &Action, names: &Name
     for (who, asset) in keys {
         if who == names.market {
             continue;
+        }
+        if let Fung::Cw20(t) = &asset {
+            if names.is_sloppy20(t) {
+                continue;
+            }
         }
         let before = pre.bal(&who, &asset);
         let after = post.bal(&who, &asset);
